@@ -313,7 +313,10 @@ func (s *Synchronizer) advanceView(syncInfo hotstuff.SyncInfo) {
 		s.duration.ViewSucceeded()
 	}
 
-	newView := s.state.NextView()
+	// the certificate ends its view: enter the view that follows it. A replica that fell behind
+	// catches up at once; stepping one view per message, it would stay behind for good, because
+	// the others advance at the same pace and proposals too far ahead of the local view are dropped.
+	newView := s.state.AdvanceTo(view + 1)
 
 	s.lastTimeout = nil
 	s.duration.ViewStarted()
